@@ -33,6 +33,8 @@ pub fn spec_digest(e: &Envelope) -> Result<[u8; 32], String> {
             let mut ds: Vec<[u8; 32]> = vec![];
             for a in assertions { ds.push(spec_digest(a)?); }
             ds.sort();
+            // the assertions of a node are a set: one digest, one element
+            if ds.windows(2).any(|w| w[0] == w[1]) { return Err("a node holds two assertion elements with one digest".into()); }
             let mut img = vec![];
             img.extend_from_slice(&spec_digest(subject)?);
             for d in ds { img.extend_from_slice(&d); }
